@@ -11,6 +11,7 @@ from ..ref import doc as refdoc
 from . import c05, c08
 
 PROPERTY = "C09"
+HASHSEED_SLICE = True
 T = "\t".join
 IDS = ["x", "y", "1", "2"]
 
@@ -167,6 +168,8 @@ def run(ctx):
       "renaming onto an identifier that is only mentioned (placeholder)"]
   plan = [("c09.g1", 3), ("c09.g2", 3)] if ctx.quick else \
          [("c09.g1", 4), ("c09.g2", 4)]
+  if ctx.slice:
+    plan = [(n, max(2, d - 2)) for n, d in plan[:2]]
   done = {}
   for name, dpt in plan:
     done[name] = explore.bfs(ctx, explore.SPECS[name], dpt)[0]
